@@ -82,11 +82,13 @@ class ModelRuns(threading.Thread):
     def __init__(self, ctx, pid, runs, timeout):
         super().__init__(daemon=True)
         self.ctx, self.pid, self.runs, self.timeout = ctx, pid, runs, timeout
-        self.done, self.err = [], None
+        self.done, self.err, self.cancelled = [], None, False
 
     def run(self):
         try:
             for cfg, what in self.runs:
+                if self.cancelled:
+                    return
                 self.done.append(mc_one(self.ctx, self.pid, cfg, what, self.timeout))
         except Exception as e:   # noqa: reported by finish_models
             self.err = e
@@ -216,21 +218,23 @@ NEEDED = {
 }
 
 
-def samples(trace, k=14):
-    out = []
+def samples(trace, k=16):
+    """The first recorded scenario that holds a token request and a tick (readable evidence)."""
+    cur, best = [], []
     with open(trace) as f:
         f.readline()
         for line in f:
             e = json.loads(line)
             if e['op'] == 'reset':
-                if out:
-                    break
+                if any(x['op'] == 'tokreq' for x in cur) and any(x['op'] == 'tick' for x in cur):
+                    return cur[:k]
+                best = best or cur
+                cur = []
                 e = dict(op='reset', cfg=e['cfg'], timed=e['timed'], src=e['src'])
-            e.pop('ms', None)
-            out.append(e)
-            if len(out) >= k:
-                break
-    return out
+            for drop in ('ms', 'hdrs' if e['op'] != 'regresp' else 'ms', 'diff', 'bodies'):
+                e.pop(drop, None)
+            cur.append(e)
+    return (cur or best)[:k]
 
 
 def canary(ctx, trace, consts, pid):
@@ -266,6 +270,16 @@ def run(ctx, pid):
     claim = CLAIMS[pid]
     models = ModelRuns(ctx, pid, MC_QUICK if quick else MC_THOROUGH, 600 if quick else 1500)
     models.start()
+    try:
+        return run_rest(ctx, pid, models)
+    except BaseException:
+        models.cancelled = True   # (the run in progress ends by itself; no further one is started)
+        raise
+
+
+def run_rest(ctx, pid, models):
+    quick = ctx.tier == 'quick'
+    claim = CLAIMS[pid]
     vh = vlib.build_harness(ctx)
     walks = []
     for attempt in range(3):   # (a loaded machine occasionally kills a JVM without output)
@@ -297,7 +311,7 @@ def run(ctx, pid):
     ctx.log('harness: %s' % json.dumps(stats))
     total = s1['scenarios'] + s2['scenarios']
     dropped = s1['dropped'] + s2['dropped']
-    if dropped * 2 > s1['timed'] + s2['timed'] and dropped > 5:
+    if s1['timed'] + s2['timed'] - dropped < 10:
         raise vlib.Machinery('%d of %d real-time scenarios could not be run inside their timing windows (machine too loaded)' % (dropped, s1['timed'] + s2['timed']))
     ctx.cov['samples'] = [dict(tlc_walk=walks[0]['ops'][:6], cfg=walks[0]['cfg']), dict(recorded_events=samples(traces[1]))]
     ctx.cov['harness'] = stats
